@@ -19,7 +19,8 @@ def pEv : Tok Ev := do
   let k ← Tok.next
   match k with
   | "rx" => do
-    let t ← Tok.int; let addr ← Tok.nat; let port ← Tok.nat; let dataId ← Tok.nat; let size ← Tok.nat; let hasQu ← Tok.bool
+    let t ← Tok.int; let addr ← Tok.nat; let port ← Tok.nat; let dataId ← Tok.nat; let size ← Tok.nat; let isq ← Tok.bool; let qus ← Tok.natList
+    let hasQu := isq && hasQuFlag (qus.map (fun b => decide (b ≠ 0)))
     let kk ← Tok.next
     let kind ← match kk with
       | "i" => pure RxKind.invalid
@@ -133,6 +134,16 @@ def c11fmt (toks : List String) : String :=
   | some ((m, id, c, u), _) => s!"{wireId m id} {replyFlags} {wireClass c u m}"
   | none => "bad-op"
 
+/-- `c11reply <unicast 0/1> <ucast_source> <id> <class> <unique>` → `wireId flags wireClass` of a record in the datagram
+built by `construct_outgoing_unicast_answers` (1) / `construct_outgoing_multicast_answers` (0) -/
+def c11reply (toks : List String) : String :=
+  match (do let uc ← Tok.bool; let us ← Tok.bool; let id ← Tok.nat; let c ← Tok.nat; let u ← Tok.bool; Tok.done; pure (uc, us, id, c, u) : Tok _).run toks with
+  | some ((uc, us, id, c, u), _) =>
+    let m := if uc then ucastReplyMulticast id us else mcastReplyMulticast
+    let id' := if uc then id else 0   -- the multicast constructor passes no id (default 0)
+    s!"{wireId m id'} {replyFlags} {wireClass c u m}"
+  | none => "bad-op"
+
 /-- `c11send <ipv6_socket> <addr_has_colon>` → can_send_to -/
 def c11send (toks : List String) : String :=
   match (do let a ← Tok.bool; let b ← Tok.bool; Tok.done; pure (a, b) : Tok _).run toks with
@@ -146,6 +157,7 @@ def dispatch (cmd : String) (rest : List String) : Option String :=
   | "c12cls" => some (c12cls rest)
   | "c11fmt" => some (c11fmt rest)
   | "c11send" => some (c11send rest)
+  | "c11reply" => some (c11reply rest)
   | _ => none
 
 end Zc.Driver.C12
